@@ -127,8 +127,12 @@ CLAIMED = {
         'under the vanishing-boundary-term hypothesis this IS the bilinear form of p = -beta dw/dflow + gamma w; linearity in the '
         'coefficients; hand model of the coefficient derivation with theorems beta = rho V^2/q, gamma = beta/(2rq), '
         'aeromu = rho V (M^2-2)/q^3 (q^2 = M^2-1). Ties: V for the kernels, driver correspondence for the coefficients actually '
-        'handed to the kernels, full bilinear-form oracle vs calc_kA/calc_cA incl. symmetry classes, bay delegation. Two genuine '
-        'defects repaired (fix: 3ef86b6, caa1207).',
+        'handed to the kernels, full bilinear-form oracle vs calc_kA/calc_cA incl. symmetry classes, bay delegation. '
+        'STIFFENED BAYS: StiffPanelBay.calc_kA and the aerodynamic loop of the packaged flutter assembly have a hand model (Model/BayAero.lean, on top of the panel glue model) '
+        'with bay_calc_kA_delegates (the bay matrix is the skin panel\'s finalised matrix with the BAY\'s flow data at the bay\'s size), bay_calc_kA_zero_on_stiffeners, '
+        'bay_calc_kA_eq_piston_form_cpanel, bay_calc_kA_coefficients, bay_calc_kA_errors (12 branches), flutter_assembly_kA(_blocks) and a curvature counter-example for the helper; '
+        'tied by a recorded-call correspondence (tools/props/C19_bay.py, line-coverage gate). Three genuine '
+        'defects repaired (fix: 3ef86b6, caa1207, 8334530), two listed (entry points that raise).',
    note='As C02; (Mach^2-1)**0.5 enters the coefficient model as a parameter; conical panels rejected by the code; flow along y has no '
         'curvature term in any kernel (stated).',
    technique='Lean 4 proof over regenerated model + hand model with driver correspondence + oracle', ref='4/C19'),
